@@ -12,6 +12,7 @@
 package main
 
 import (
+	"bytes"
 	"context"
 	"fmt"
 	"os"
@@ -48,11 +49,11 @@ type block struct {
 	beacon []byte
 }
 
-func (b *block) String() string         { return fmt.Sprintf("b%d@%d", b.id, b.epoch) }
-func (b *block) Key() gpbft.TipSetKey   { return b.key }
-func (b *block) Beacon() []byte         { return b.beacon }
-func (b *block) Epoch() int64           { return b.epoch }
-func (b *block) Timestamp() time.Time   { return b.time }
+func (b *block) String() string       { return fmt.Sprintf("b%d@%d", b.id, b.epoch) }
+func (b *block) Key() gpbft.TipSetKey { return b.key }
+func (b *block) Beacon() []byte       { return b.beacon }
+func (b *block) Epoch() int64         { return b.epoch }
+func (b *block) Timestamp() time.Time { return b.time }
 
 type tree struct {
 	blocks   []*block
@@ -464,6 +465,47 @@ func (s *scenario) makeCert(inst uint64, chain *gpbft.ECChain, supp *gpbft.Suppl
 	}
 }
 
+// saveDecision hands the decision (same signers and aggregate as `want`) to the real gpbftHost.saveDecision.
+func (s *scenario) saveDecision(inst uint64, decided *gpbft.ECChain, supp *gpbft.SupplementalData, cur *gpbft.Committee, want *certs.FinalityCertificate) string {
+	d := &gpbft.Justification{
+		Vote:      gpbft.Payload{Instance: inst, Phase: gpbft.DECIDE_PHASE, SupplementalData: *supp, Value: decided},
+		Signers:   want.Signers,
+		Signature: want.Signature,
+	}
+	var got *certs.FinalityCertificate
+	res := guardErr(func() error {
+		var err error
+		got, err = f3.VerifSaveDecision(s.ctx, s.m, s.store, s.t, s.w.backend, s.clk, d)
+		return err
+	})
+	deltaEq, stored, valid := 0, 0, "-"
+	if res == "ok" && got != nil {
+		var a, b bytes.Buffer
+		must(got.MarshalCBOR(&a))
+		must(want.MarshalCBOR(&b))
+		if bytes.Equal(a.Bytes(), b.Bytes()) {
+			deltaEq = 1
+		}
+		if sc, err := s.store.Get(s.ctx, inst); err == nil {
+			var c bytes.Buffer
+			must(sc.MarshalCBOR(&c))
+			if bytes.Equal(c.Bytes(), a.Bytes()) {
+				stored = 1
+			}
+		}
+		fresh := append(gpbft.PowerEntries{}, cur.PowerTable.Entries...)
+		valid = guardErr(func() error {
+			next, _, _, err := certs.ValidateFinalityCertificates(s.w.backend, s.m.NetworkName, fresh, inst, decided.Base(), got)
+			if err == nil && next != inst+1 {
+				return fmt.Errorf("next instance %d", next)
+			}
+			return err
+		})
+	}
+	s.w.out.Line("save inst=%d => %s certeq=%d stored=%d valid=%s", inst, res, deltaEq, stored, valid)
+	return res
+}
+
 func (w *world) newScenario(t *tree, m manifest.Manifest) *scenario {
 	ctx, clk := clock.WithMockClock(context.Background())
 	s := &scenario{w: w, t: t, m: m, ctx: ctx, clk: clk, ccOK: true, latest: -1}
@@ -613,7 +655,15 @@ func (w *world) nodeScenario(id int, thorough bool) {
 		}
 		decided := chain.Prefix(keep - 1)
 		cert := s.makeCert(inst, decided, supp, cur, next)
-		pres := guardErr(func() error { return s.store.Put(s.ctx, cert) })
+		var pres string
+		if r.Intn(2) == 0 {
+			// C03: the decision goes through the host's real saveDecision, which derives both committees and the
+			// delta itself, validates the certificate it formed and stores it; the stored certificate must be
+			// the one an independent party computes and must validate against a fresh copy of the same table.
+			pres = s.saveDecision(inst, decided, supp, cur, cert)
+		} else {
+			pres = guardErr(func() error { return s.store.Put(s.ctx, cert) })
+		}
 		hb, bb := s.t.byKey[string(decided.Head().Key)], s.t.byKey[string(decided.Base().Key)]
 		w.out.Line("put inst=%d base=%d head=%d supp=%d => %s", inst, bb.id, hb.id, t.tableID(supp.PowerTable), pres)
 		if pres != "ok" {
